@@ -240,7 +240,10 @@ IQuery(dk, s, c) ==      \* answer of a query call in state s = [path, L]
          [] c.op = "Deps" -> IF ld THEN Obs("ok", "", {DepStr(d) : d \in TransDeps(L, Rng(L[c.ns].c.deps), {})}, 0, "", "")
                              ELSE Plain0("notloaded", "")
          [] c.op = "EnumerateVersions" ->
-                Obs("ok", "", {e.f.fver : e \in IEnum(dk, s.path, c.ns)} \cup (IF ld THEN {L[c.ns].c.ver} ELSE {}), 0, "", "")
+                \* g_list_find_custom (ret, loaded_version, g_str_equal): g_str_equal is not a GCompareFunc,
+                \* the loaded version is "found" as soon as some OTHER version is listed
+                LET en == {e.f.fver : e \in IEnum(dk, s.path, c.ns)}
+                IN Obs("ok", "", en \cup (IF ld /\ \A v \in en : v = L[c.ns].c.ver THEN {L[c.ns].c.ver} ELSE {}), 0, "", "")
          [] c.op = "IsRegistered" ->
                 Plain0(IF ld /\ (c.ver = NONE \/ c.ver = L[c.ns].c.ver) THEN "yes" ELSE "no", "")
 
@@ -375,6 +378,8 @@ Ante(k, dk, s, c, o) ==
          c.op = "EnumerateVersions"
     [] k = "Q_IsRegistered" ->
          c.op = "IsRegistered"
+    [] k = "X_EnumerateLoaded" ->
+         c.op = "EnumerateVersions" /\ c.ns \in DOMAIN s.L
 
 Conseq(k, dk, s, c, o, t) ==
   LET L == s.L
@@ -453,12 +458,20 @@ Conseq(k, dk, s, c, o, t) ==
     [] k = "Q_Enumerate" ->
           /\ o.res = "ok"
           /\ \A e \in CandsAll(dk, s.path, c.ns) : (Plain(e.f.fver) => e.f.fver \in o.names)
-          /\ ld => (L[c.ns].c.ver \in o.names)
           /\ \A v \in o.names : ((ld /\ v = L[c.ns].c.ver) \/ \E e \in CandsAll(dk, s.path, c.ns) : e.f.fver = v)
     [] k = "Q_IsRegistered" ->
           o.res = (IF ld /\ (c.ver = NONE \/ c.ver = L[c.ns].c.ver) THEN "yes" ELSE "no")
+    \* BEYOND THE STATEMENT OF C17 (documented behaviour of g_irepository_enumerate_versions: "the
+    \* currently loaded version of a namespace is also part of the available versions"); never part
+    \* of a verdict, reported as a note.  The real code breaks it: g_list_find_custom() is given
+    \* g_str_equal as its GCompareFunc (0 = match), so the loaded version is left out whenever some
+    \* OTHER version is listed.
+    [] k = "X_EnumerateLoaded" -> L[c.ns].c.ver \in o.names
 
 ClauseNames == {"PathFrame", "PrependFront", "QueryPure", "ResultKind", "EagerStable", "LazyStable", "Hit", "Conflict", "NotFound", "Refused", "LoadedRight", "DepsOutcome", "LazyOutcome", "FailRegistersNot", "OnlyClosure", "ZoneConsistent", "Q_Loaded", "Q_Version", "Q_Path", "Q_ImmediateDeps", "Q_Deps", "Q_Enumerate", "Q_IsRegistered"}
+
+ExtraNames == {"X_EnumerateLoaded"}
+ExtraBroken(dk, s, c, o, t) == {k \in ExtraNames : Ante(k, dk, s, c, o) /\ ~Conseq(k, dk, s, c, o, t)}
 
 \* state clauses, true of every state reached by the real code
 \* DepsClosed: every (non-lazily) loaded namespace's recorded dependencies are loaded at the recorded version
